@@ -1666,6 +1666,8 @@ def parse_einsum_input(args, shapes=False, tuples=False, constants=None):
         eq, arrays = convert_from_interleaved(args)
     else:
         eq, *arrays = args
+        # like numpy (and opt_einsum) ignore any whitespace in the equation
+        eq = eq.replace(" ", "")
 
     # prepare shapes for caching
     if shapes:
